@@ -150,7 +150,8 @@ let () =
         match Hashtbl.find_opt txs x with
         | None -> ()
         | Some t when Hashtbl.mem completed t.id || Hashtbl.mem waiting t.id
-                      || (match Hashtbl.find_opt latest t.id with Some (l : tx) -> l.sock <> t.sock | None -> false) -> ()
+                      || (match Hashtbl.find_opt latest t.id with Some (l : tx) -> l.sock <> t.sock | None -> false) ->
+          if Sys.getenv_opt "C17DEBUG" <> None then Printf.eprintf "%d SKIP x%d srv=%d id=%d completed=%b waiting=%b\n" k x t.srv t.id (Hashtbl.mem completed t.id) (Hashtbl.mem waiting t.id)
           (* the query is gone, sits in the requeue list (not on a connection), or is by now outstanding on
              another connection: nobody looks at this response *)
         | Some t when t.tcp -> incr n_val   (* a TCP request carries no cookie: the cookie code has nothing to decide *)
@@ -178,7 +179,9 @@ let () =
               let n = int_of_z (!g.g_bad q) + 1 in
               let ev = EValidate (q, (match cookie with Some c -> Some (List.map z_of_int c) | None -> None), z_of_int rcode, tv_of_ms !clock) in
               let clean o = (snd (mon_step !g ev o) = []) in
-              if later_tx <> None && clean (OValidate (aRES_EBADRESP, Some (aRES_SUCCESS, aRES_FALSE), z_of_int n, int_of_z cOOKIE_RESEND_MAX <= n)) then `Requeue
+              if later_tx <> None &&
+                 (if rcode = 23 then clean (OValidate (aRES_EBADRESP, Some (aRES_SUCCESS, aRES_FALSE), z_of_int n, int_of_z cOOKIE_RESEND_MAX <= n))
+                  else clean (OValidate (aRES_SUCCESS, None, z_of_int n, false))) then `Requeue
               else if cb_seen && clean (OValidate (aRES_SUCCESS, None, z_of_int n, false)) then `Accept
               else `Drop
             end in
@@ -194,10 +197,18 @@ let () =
             let ev = EValidate (q, (match cookie with Some c -> Some (List.map z_of_int c) | None -> None), z_of_int rcode, tv_of_ms !clock) in
             let step g =
               let n = int_of_z (g.g_bad q) + 1 in
-              mon_step g ev (OValidate ((if accepted then aRES_SUCCESS else aRES_EBADRESP),
-                                        (match resend with Some _ -> Some (aRES_SUCCESS, aRES_FALSE) | None -> None),
-                                        z_of_int n,
-                                        (match resend with Some (t2, _) -> t2.tcp | None -> false))) in
+              (* what ares_cookie_validate must have said, read off the consequences: a BADCOOKIE reply is
+                 re-sent by the cookie code itself (status EBADRESP + requeue); for every other rcode ANY
+                 consequence - a callback carrying the record, or a retransmission of the query (without
+                 EDNS after FORMERR, over TCP after TC, to the next try after SERVFAIL/NOTIMP/REFUSED) -
+                 shows that the reply passed the cookie checks; no consequence at all = dropped *)
+              if rcode = 23 then
+                mon_step g ev (OValidate ((if accepted then aRES_SUCCESS else aRES_EBADRESP),
+                                          (match resend with Some _ -> Some (aRES_SUCCESS, aRES_FALSE) | None -> None),
+                                          z_of_int n,
+                                          (match resend with Some (t2, _) -> t2.tcp | None -> false)))
+              else
+                mon_step g ev (OValidate ((if accepted || resend <> None then aRES_SUCCESS else aRES_EBADRESP), None, z_of_int n, false)) in
             let g0 = List.hd !gs in
             if dbg then Printf.eprintf "%d VALIDATE clock=%d x%d srv=%d id=%d %s probe=%b gone?=%b accepted=%b resend=%b sup=%b reset_ok=%b states=%d\n" k !clock x t.srv t.id rtext probe maybe_gone accepted (resend <> None) g0.g_sup g0.g_reset_ok (List.length !gs);
             let was_sup = g0.g_sup and was_reset = g0.g_reset_ok in
@@ -217,36 +228,60 @@ let () =
             let multi = List.length (List.sort_uniq compare (try Hashtbl.find q_servers t.id with Not_found -> [])) > 1 in
             let v = if multi then List.filter (fun x -> x <> V_badcookie_bound) v else v in
             report t.srv v (Printf.sprintf "x%d srv=%d %s -> %s" x t.srv rtext
-                              (if accepted then "accepted" else match resend with Some (t2, _) -> Printf.sprintf "resent as x%d proto=%s" t2.x (if t2.tcp then "tcp" else "udp") | None -> "dropped"))
+                              (if accepted then "accepted" else match resend with
+                                  | Some (t2, _) -> Printf.sprintf "resent as x%d proto=%s%s" t2.x (if t2.tcp then "tcp" else "udp")
+                                                      (match t2.req with NoOpt -> " WITHOUT EDNS and cookie" | OptOnly -> " without cookie" | OptCookie _ -> "")
+                                  | None -> "dropped"))
           end in
       let process_section ls =
-        let sec_txs = List.filter_map (fun l -> if starts l "TX " then (match parse_tx l with Some t -> Some (t, l) | None -> None) else None) ls in
-        List.iter (fun (t, _) -> Hashtbl.replace txs t.x t; if not (Hashtbl.mem primary_id t.tok) then Hashtbl.replace primary_id t.tok t.id) sec_txs;
+        let all_txs = List.filter_map (fun l -> if starts l "TX " then parse_tx l else None) ls in
+        List.iter (fun t -> Hashtbl.replace txs t.x t; if not (Hashtbl.mem primary_id t.tok) then Hashtbl.replace primary_id t.tok t.id) all_txs;
+        let apply_line l =
+          match parse_tx l with
+          | Some t -> Hashtbl.remove waiting t.id; Hashtbl.replace latest t.id t; Hashtbl.replace tx_clock t.id !clock;
+            do_apply t (String.sub l 0 (min 160 (String.length l)))
+          | None -> () in
+        (* The library reads a socket until EAGAIN, then processes the datagrams in order, then flushes the
+           requeue list.  So the section is cut into read batches: the RECVFROM lines of one socket, followed
+           by their consequences (callbacks, retransmissions) up to the next RECVFROM.  The consequences of a
+           response are looked for in the window of its own batch only. *)
+        let arr = Array.of_list ls in
+        let nl = Array.length arr in
         let consumed = Hashtbl.create 4 in
-        (* events in the order of the log: a datagram read = the next response queued on that socket *)
-        List.iter (fun l ->
+        (* callbacks are looked for in the batch's own window [a, b); a retransmission may come later in
+           the section (a TCP connection has to be set up first): TX lines from a to the end *)
+        let flush batch a b =
+          let window = Array.to_list (Array.sub arr a (b - a)) in
+          let later = Array.to_list (Array.sub arr a (nl - a)) in
+          let sec_txs = List.filter_map (fun l -> if starts l "TX " then (match parse_tx l with Some t -> Some (t, l) | None -> None) else None) later in
+          List.iter (fun r -> validate r window sec_txs consumed) (List.rev batch);
+          List.iter (fun l -> if starts l "TX " then apply_line l) window in
+        let batch = ref [] and wstart = ref (-1) in
+        Array.iteri (fun idx l ->
           if starts l "SOCKET s" then
-            (match words l with _ :: sk :: _ -> Hashtbl.replace sock_tcp sk (kv l "type" = Some "tcp") | _ -> ())
-          else if starts l "RECVFROM s" then begin
+            (match words l with _ :: sk :: _ -> Hashtbl.replace sock_tcp sk (kv l "type" = Some "tcp") | _ -> ());
+          if starts l "RECVFROM s" then begin
+            if !wstart >= 0 then begin flush !batch !wstart idx; batch := []; wstart := -1 end;
             match words l, kv l "rc" with
             | _ :: sk :: _, Some rc when ios rc > 0 ->
               let tcp = (try Hashtbl.find sock_tcp sk with Not_found -> false) in
               let mine, rest = List.partition (fun (_, s, _) -> s = sk) !pending in
               (match mine with
                | [] -> ()
-               | first :: more ->
+               | first :: _ ->
                  if tcp then begin
                    pending := rest;
-                   List.iter (fun (r, _, _) -> validate r ls sec_txs consumed) mine
+                   List.iter (fun (r, _, _) -> batch := r :: !batch) mine
                  end else begin
-                   (* keep the relative order of what stays queued *)
                    pending := List.filter (fun p -> p != first) !pending;
-                   ignore more;
-                   (match first with (r, _, _) -> validate r ls sec_txs consumed)
+                   (match first with (r, _, _) -> batch := r :: !batch)
                  end)
             | _ -> ()
-          end else if starts l "TX " then
-            (match parse_tx l with Some t -> Hashtbl.remove waiting t.id; Hashtbl.replace latest t.id t; Hashtbl.replace tx_clock t.id !clock; do_apply t (String.sub l 0 (min 160 (String.length l))) | None -> ())) ls;
+          end else if !wstart >= 0 then ()
+          else if !batch <> [] then wstart := idx
+          else if starts l "TX " then apply_line l) arr;
+        if !wstart >= 0 then flush !batch !wstart nl
+        else if !batch <> [] then flush !batch nl nl;
         Hashtbl.reset waiting;
         List.iter (fun l ->
           if starts l "CB t" then
